@@ -54,6 +54,13 @@ impl BucketIndex {
     }
 }
 
+#[cfg(nomt_verif)]
+impl BucketIndex {
+    pub fn verif_index(&self) -> u64 {
+        self.0
+    }
+}
+
 /// Essentially an `Arc<Option<BucketIndex>>` that can be mutated atomically.
 ///
 /// This is used as a shared placeholder for a bucket that _will_ be allocated in the future
